@@ -1576,6 +1576,9 @@ FINDINGS = [
     {"status": "fixed", "key": "recheck-fails:fact-with-foreign-hypothesis:rewrite_goal_with_prev", "commit": "fixes/C13-9.patch",
      "what": "the same through rewrite_goal_with_prev (corpus: cut `~A <--> C` at 2, revert_intro goal 3 fact 1, rewrite_goal_with_prev "
              "goal 2 fact 1)"},
+    {"status": "fixed", "key": "recheck-fails:fact-with-foreign-hypothesis:z3", "commit": "fixes/C13-10.patch",
+     "what": "the z3 method overwrote the goal line without its stated sequent; with a fact that depends on a hypothesis the goal lacks "
+             "(corpus: perturbed replay of set.card_delete, goal 2.1, fact 2.0) the state no longer re-checked"},
     {"status": "fixed", "key": "import-fails:induction:TypeError:", "commit": "bd71214",
      "what": "a state with an apply_induct line (any use of the induction method, e.g. list.append_right_neutral) could not be re-imported: "
              "parser.parse_args had no case for Tuple[str, Term, Term]"},
